@@ -51,7 +51,8 @@ _cand_cache = {}
 
 def candidates(universe, labels_name, lab):
     """(complete candidates, incomplete candidates) as lists of (abstract, Ranking)."""
-    from ..lib import mk_ranking
+    from ..lib import mk_ranking, typed_labels
+    lab = typed_labels(lab, universe)     # a candidate is written with the element type the dataset has
     key = (universe, labels_name, tuple(sorted(lab.items())))
     if key in _cand_cache:
         return _cand_cache[key]
@@ -135,15 +136,16 @@ def histories(ctx, ds0, lname, n, schemes):
     """one KemenyComputingFactory scores a candidate against a dataset OBJECT, the object is then mutated in place
     (element removed / empty rankings removed), and the SAME factory scores every candidate of the new universe
     against the SAME object: scores and refusals must be those of the mutated dataset."""
-    from ..lib import mk_scheme, mk_ranking, mutation_histories, prepare_mutated
-    lab = labels_of(lname, n)
+    from ..lib import mk_scheme, mk_ranking, mutation_histories, prepare_mutated, typed_labels
+    lab0 = labels_of(lname, n)
     for what, after in mutation_histories(ds0):
         uni0 = spaces.universe_of(ds0)
         universe = spaces.universe_of(after)
+        lab = typed_labels(lab0, universe)          # element type after the mutation
         for s in schemes:
             fac = _lib['K'](mk_scheme(s))
-            first = mk_ranking((tuple(uni0),), lab)
-            d = prepare_mutated(ds0, lab, what, warm=lambda dd: fac.get_kemeny_score(first, dd))
+            first = mk_ranking((tuple(uni0),), typed_labels(lab0, uni0))
+            d = prepare_mutated(ds0, lab0, what, warm=lambda dd: fac.get_kemeny_score(first, dd))
             for c in spaces.weak_orders(universe):
                 cr = mk_ranking(c, lab)
                 exp = refmodel.ref_score(c, after, s[0], s[1])
